@@ -43,7 +43,41 @@ func init() { register("C16", runC16) }
 var errC16Local = errors.New("c16conn: use of locally closed transport")
 var errC16Write = errors.New("c16conn: write failed")
 
-const c16Wait = 8 * time.Second
+const c16Wait = 8 * time.Second // expires only when something is really stuck
+
+// Every wait of this harness is limited. An expired wait is an observation ("stuck: <where>",
+// item TStuck -> V_ violation), never a hang. Once a wait has expired the verdict is settled:
+// later waits are short, and after a few expiries the remaining scenarios are skipped, so that
+// a tree on which everything blocks is reported within a minute.
+var c16Expired int32
+
+const c16MaxExpired = 4
+
+func c16Limit() time.Duration {
+	if atomic.LoadInt32(&c16Expired) > 0 {
+		return time.Second
+	}
+	return c16Wait
+}
+
+func c16GiveUp() bool { return atomic.LoadInt32(&c16Expired) >= c16MaxExpired }
+
+// c16Guard runs a call into the library on a goroutine of its own and waits for it at most
+// c16Limit(): a call that blocks (a lock held for ever) is reported, it cannot hang the harness.
+func c16Guard(f func()) bool {
+	ch := make(chan struct{})
+	go func() {
+		f()
+		close(ch)
+	}()
+	select {
+	case <-ch:
+		return true
+	case <-time.After(c16Limit()):
+		atomic.AddInt32(&c16Expired, 1)
+		return false
+	}
+}
 
 func c16gid() int64 {
 	var buf [64]byte
@@ -124,7 +158,9 @@ type c16Timeline struct {
 
 func (t *c16Timeline) add(item, human string) {
 	t.mu.Lock()
-	t.items = append(t.items, item)
+	if item != "" {
+		t.items = append(t.items, item)
+	}
 	if human != "" {
 		t.human = append(t.human, human)
 	}
@@ -132,7 +168,9 @@ func (t *c16Timeline) add(item, human string) {
 }
 func (t *c16Timeline) step(k int, l string) { t.add(fmt.Sprintf("IStep (On %d%%nat %s)", k, l), "") }
 func (t *c16Timeline) sys(l string)         { t.add("IStep "+l, "") }
-func (t *c16Timeline) tev(k int, e string)  { t.add(fmt.Sprintf("IT %d%%nat %s", k, e), fmt.Sprintf("%d:%s", k, e)) }
+func (t *c16Timeline) tev(k int, e string) {
+	t.add(fmt.Sprintf("IT %d%%nat %s", k, e), fmt.Sprintf("%d:%s", k, e))
+}
 func (t *c16Timeline) snapshot() ([]string, []string) {
 	t.mu.Lock()
 	defer t.mu.Unlock()
@@ -151,10 +189,29 @@ func c16Closed(ch <-chan struct{}) bool {
 	}
 }
 
-func c16Sample(t *c16Timeline, k int, cli *mqtt.BaseClient) {
+// c16Sample polls Err() and Done(). false: one of them blocked (recorded as TStuck).
+func c16Sample(t *c16Timeline, k int, cli *mqtt.BaseClient) bool {
+	var err error
+	var done bool
+	if !c16Guard(func() {
+		err = cli.Err()
+		done = c16Closed(cli.Done())
+	}) {
+		t.tev(k, "TStuck")
+		t.add("", fmt.Sprintf("%d:stuck: Err()/Done() did not return", k))
+		return false
+	}
+	t.tev(k, fmt.Sprintf("(TSample %s %s)", c16Err(err), cBool(done)))
+	return true
+}
+
+// c16Look is what an observer does from inside its ConnState handler: a look at Err() and a
+// non-blocking look at Done() of its own client (runs on the library's goroutine, unguarded: if
+// the library deadlocks here, the controller's wait for this goroutine expires).
+func c16Look(t *c16Timeline, k int, cli *mqtt.BaseClient) {
 	err := cli.Err()
 	done := c16Closed(cli.Done())
-	t.tev(k, fmt.Sprintf("(TSample %s %s)", c16Err(err), cBool(done)))
+	t.tev(k, fmt.Sprintf("(TLook %s %s)", c16Err(err), cBool(done)))
 }
 
 // ---------------------------------------------------------------- gated transport + controller (family bc)
@@ -176,6 +233,7 @@ type c16Ctl struct {
 	events  chan c16Ev
 	gidMain int64
 	gidD    int64 // atomic
+	gidAux  int64 // atomic: a guarded call made on behalf of the controller
 	held    map[string]*c16Park
 	idle    int
 	wrote   bool
@@ -194,7 +252,7 @@ func (c *c16Ctl) park(name string) c16Rel {
 	select {
 	case r := <-p.rel:
 		return r
-	case <-time.After(4 * c16Wait):
+	case <-time.After(3 * c16Wait):
 		return c16Rel{} // the controller gave up on this scenario
 	}
 }
@@ -202,7 +260,7 @@ func (c *c16Ctl) park(name string) c16Rel {
 // wait pumps events until cond holds. Parks whose name is in hold stay parked (recorded in
 // c.held); any other park is unexpected here: it is recorded and released at once.
 func (c *c16Ctl) wait(what string, hold []string, cond func() bool) bool {
-	deadline := time.After(c16Wait)
+	deadline := time.After(c16Limit())
 	for !cond() {
 		select {
 		case ev := <-c.events:
@@ -232,6 +290,7 @@ func (c *c16Ctl) wait(what string, hold []string, cond func() bool) bool {
 				c.dret, c.derr = true, ev.err
 			}
 		case <-deadline:
+			atomic.AddInt32(&c16Expired, 1)
 			c.stuck = what
 			return false
 		}
@@ -247,12 +306,13 @@ func (c *c16Ctl) release(name string, r c16Rel) {
 }
 
 type c16Conn struct {
-	mu     sync.Mutex
-	cond   *sync.Cond
-	in     []byte
-	closed bool
-	eof    bool
-	ctl    *c16Ctl // nil: no gating (family rc)
+	mu       sync.Mutex
+	cond     *sync.Cond
+	in       []byte
+	closed   bool
+	eof      bool
+	ctl      *c16Ctl // nil: no gating (family rc)
+	failAcks int32   // atomic: the sending direction is broken for PUBACK/PUBREC/PUBCOMP (reads still work)
 	// family rc
 	onWrite func(c *c16Conn, typ byte)
 }
@@ -297,6 +357,9 @@ func (c *c16Conn) Write(p []byte) (int, error) {
 			}
 		}
 	}
+	if (typ == 0x40 || typ == 0x50 || typ == 0x70) && atomic.LoadInt32(&c.failAcks) == 1 {
+		return 0, errC16Write
+	}
 	c.mu.Lock()
 	closed := c.closed
 	c.mu.Unlock()
@@ -315,7 +378,7 @@ func (c *c16Conn) Write(p []byte) (int, error) {
 func (c *c16Conn) Close() error {
 	if c.ctl != nil {
 		switch gid := c16gid(); {
-		case gid == c.ctl.gidMain:
+		case gid == c.ctl.gidMain, gid == atomic.LoadInt64(&c.ctl.gidAux):
 		case gid == atomic.LoadInt64(&c.ctl.gidD):
 			c.ctl.park("DC")
 		default:
@@ -352,6 +415,8 @@ func (c *c16Conn) finish() {
 // ---------------------------------------------------------------- family bc: scenarios
 
 // macro steps
+const c16EndKinds = 8 // ways PeerEnd makes serve() return
+
 const (
 	mStartConnect = iota
 	mRelCWok
@@ -389,18 +454,26 @@ type c16Scn struct {
 	nLocalClose   int
 	cancel        context.CancelFunc
 	ctx           context.Context
-	endKind       int // which malformed/closing behaviour PeerEnd uses
+	endKind       int  // which malformed/closing/ack-write-failure behaviour PeerEnd uses
+	blocked       bool // a guarded call into the library did not return
+	hmode         int  // 1: the handler also calls Handle(nil) on Closed/Disconnected
 	refuseCode    int
 	macros        []string
 }
 
-func newC16Scn(endKind, refuseCode int) *c16Scn {
-	s := &c16Scn{tl: &c16Timeline{}, endKind: endKind, refuseCode: refuseCode}
+func newC16Scn(endKind, refuseCode, hmode int) *c16Scn {
+	s := &c16Scn{tl: &c16Timeline{}, endKind: endKind, refuseCode: refuseCode, hmode: hmode}
 	s.ctl = &c16Ctl{events: make(chan c16Ev, 4096), gidMain: c16gid(), held: map[string]*c16Park{}}
 	s.conn = newC16Conn(s.ctl)
 	s.cli = &mqtt.BaseClient{Transport: s.conn}
 	s.cli.ConnState = func(st mqtt.ConnState, err error) {
 		s.tl.tev(0, fmt.Sprintf("(TCb %s %s)", c16State(st), c16Err(err)))
+		// the handler is an observer of its own client (legitimate: the callback is invoked
+		// after the client lock was released, conn.go:43-45)
+		c16Look(s.tl, 0, s.cli)
+		if s.hmode == 1 && (st == mqtt.StateClosed || st == mqtt.StateDisconnected) {
+			s.cli.Handle(nil)
+		}
 		switch st {
 		case mqtt.StateActive:
 			s.ctl.park("CA")
@@ -418,7 +491,7 @@ func newC16Scn(endKind, refuseCode int) *c16Scn {
 }
 
 func (s *c16Scn) valid(m int) bool {
-	if s.ctl.stuck != "" {
+	if s.ctl.stuck != "" || s.blocked {
 		return false
 	}
 	switch m {
@@ -510,7 +583,11 @@ func (s *c16Scn) do(m int) bool {
 		}
 		s.cSt = "CW"
 		s.tl.step(0, "LConnStart")
-		done := s.cli.Done()
+		var done <-chan struct{}
+		if !c16Guard(func() { done = s.cli.Done() }) {
+			c.stuck = "Done() returns while Connect is writing CONNECT"
+			return false
+		}
 		go func() {
 			<-done
 			s.tl.tev(0, "TDoneSeen")
@@ -563,7 +640,13 @@ func (s *c16Scn) do(m int) bool {
 		return s.settleC()
 	case mPeerEnd:
 		var errc string
-		switch s.endKind % 5 {
+		kind := s.endKind % c16EndKinds
+		if kind >= 5 && (s.cSt == "CW" || s.dSt == "DW") {
+			// a goroutine parked inside Transport.Write holds muWrite: the reader's acknowledgement
+			// write would wait for the harness itself. Use a read-side ending here.
+			kind = 0
+		}
+		switch kind {
 		case 0:
 			errc = "EEOF"
 			s.tl.tev(0, "(TPeerEnd EEOF)")
@@ -585,12 +668,41 @@ func (s *c16Scn) do(m int) bool {
 			errc = "EInvalidLength" // five-byte remaining length
 			s.tl.tev(0, "(TPeerEnd EInvalidLength)")
 			s.conn.send([]byte{0x30, 0x80, 0x80, 0x80, 0x80, 0x01})
+		case 5:
+			// the sending direction breaks while receiving still works: the PUBACK write fails
+			errc = "EWriteFail"
+			s.tl.tev(0, "(TPeerEnd EWriteFail)")
+			atomic.StoreInt32(&s.conn.failAcks, 1)
+			s.conn.send(encPublish(inMsg{Topic: []byte("t"), ID: 7, QoS: 1, Payload: []byte{1}}))
+		case 6:
+			errc = "EWriteFail" // ... the PUBREC write fails
+			s.tl.tev(0, "(TPeerEnd EWriteFail)")
+			atomic.StoreInt32(&s.conn.failAcks, 1)
+			s.conn.send(encPublish(inMsg{Topic: []byte("t"), ID: 7, QoS: 2, Payload: []byte{1}}))
+		case 7:
+			// inbound QoS 2: PUBLISH, PUBREC written, then the sending direction breaks, PUBREL:
+			// the PUBCOMP write fails
+			errc = "EWriteFail"
+			n := c.idle
+			s.conn.send(encPublish(inMsg{Topic: []byte("t"), ID: 7, QoS: 2, Payload: []byte{1}}))
+			if !c.wait("reader answers PUBLISH QoS2 with PUBREC", nil, func() bool { return c.idle > n }) {
+				return false
+			}
+			s.tl.tev(0, "(TPeerEnd EWriteFail)")
+			atomic.StoreInt32(&s.conn.failAcks, 1)
+			s.conn.send(encID(0x62, 7))
 		}
 		return s.serveFails(errc)
 	case mLocalClose:
 		s.nLocalClose++
 		s.tl.tev(0, "TCallClose")
-		s.cli.Close()
+		if !c16Guard(func() {
+			atomic.StoreInt64(&c.gidAux, c16gid())
+			s.cli.Close()
+		}) {
+			c.stuck = "Close() returns"
+			return false
+		}
 		s.tl.step(0, "LLocalClose")
 		if s.sSt == "rd" {
 			return s.serveFails("ELocalClosed")
@@ -695,15 +807,32 @@ func (s *c16Scn) do(m int) bool {
 	return true
 }
 
-func (s *c16Scn) sample() { c16Sample(s.tl, 0, s.cli) }
+func (s *c16Scn) sample() bool {
+	if s.blocked {
+		return false
+	}
+	if !c16Sample(s.tl, 0, s.cli) {
+		s.blocked = true
+		return false
+	}
+	return true
+}
 
 var errC16Probe = errors.New("c16: a later error")
 
 // c16OnceProbe: when the connection already has an error, a further SetErrorOnce (exported,
 // conn.go:25) must not replace it: Err() keeps returning the error reported with Closed.
 func c16OnceProbe(t *c16Timeline, k int, cli *mqtt.BaseClient) {
-	if cli.Err() != nil {
-		cli.SetErrorOnce(errC16Probe)
+	var has bool
+	if !c16Guard(func() {
+		if has = cli.Err() != nil; has {
+			cli.SetErrorOnce(errC16Probe)
+		}
+	}) {
+		t.tev(k, "TStuck")
+		return
+	}
+	if has {
 		c16Sample(t, k, cli)
 	}
 }
@@ -714,10 +843,9 @@ func (s *c16Scn) drain(order []int) bool {
 		progressed := false
 		for _, m := range order {
 			if s.valid(m) {
-				if !s.do(m) {
+				if !s.do(m) || !s.sample() {
 					return false
 				}
-				s.sample()
 				progressed = true
 				break
 			}
@@ -771,20 +899,18 @@ type c16Result struct {
 
 // c16RunBC executes the steps of prefix that are valid when their turn comes (the others are
 // skipped), then up to extra further steps chosen by choose among the valid ones, then drains.
-func c16RunBC(prefix []int, endKind, refuseCode, drainOrder int, extra int, choose func(valid []int) int) (res c16Result) {
-	s := newC16Scn(endKind, refuseCode)
+func c16RunBC(prefix []int, endKind, refuseCode, drainOrder int, hmode int, extra int, choose func(valid []int) int) (res c16Result) {
+	s := newC16Scn(endKind, refuseCode, hmode)
 	defer s.cleanup()
-	s.sample()
-	ok := true
+	ok := s.sample()
 	for _, m := range prefix {
+		if !ok {
+			break
+		}
 		if !s.valid(m) {
 			continue
 		}
-		if !s.do(m) {
-			ok = false
-			break
-		}
-		s.sample()
+		ok = s.do(m) && s.sample()
 	}
 	validNow := func() []int {
 		var v []int
@@ -800,23 +926,28 @@ func c16RunBC(prefix []int, endKind, refuseCode, drainOrder int, extra int, choo
 		if len(v) == 0 {
 			break
 		}
-		if !s.do(choose(v)) {
-			ok = false
-			break
-		}
-		s.sample()
+		ok = s.do(choose(v)) && s.sample()
 	}
 	if ok {
 		res.next = validNow()
-		if s.drain(c16DrainOrders[drainOrder%len(c16DrainOrders)]) {
+		if s.drain(c16DrainOrders[drainOrder%len(c16DrainOrders)]) && !s.blocked {
 			s.tl.tev(0, "TEnd")
-			s.sample()
-			c16OnceProbe(s.tl, 0, s.cli)
+			if s.sample() {
+				c16OnceProbe(s.tl, 0, s.cli)
+			}
 		}
+	}
+	if s.ctl.stuck != "" {
+		// an expired wait is an observation: what the library was expected to do did not happen
+		s.tl.tev(0, "TStuck")
+		s.tl.add("", "0:stuck waiting for: "+s.ctl.stuck)
 	}
 	res.items, res.human = s.tl.snapshot()
 	res.macros = s.macros
 	res.stuck = s.ctl.stuck
+	if res.stuck == "" && s.blocked {
+		res.stuck = "Err()/Done() did not return"
+	}
 	res.unexp = s.ctl.unexp
 	return
 }
@@ -830,8 +961,9 @@ type c16Epoch struct {
 	active  chan struct{}
 	wrote   chan struct{} // CONNECT was written: init() has run, Done() is the channel of this connection
 	ping    chan struct{}
-	answer  int32 // answer PINGREQ
-	refuse  int32 // CONNACK return code
+	pubrec  chan struct{} // a PUBREC was written
+	answer  int32         // answer PINGREQ
+	refuse  int32         // CONNACK return code
 	closedE error
 	mu      sync.Mutex
 }
@@ -848,7 +980,7 @@ func (r *c16RC) dial(ctx context.Context) (*mqtt.BaseClient, error) {
 	r.mu.Lock()
 	k := len(r.epochs)
 	ans, refuse := r.plan(k)
-	ep := &c16Epoch{k: k, active: make(chan struct{}), wrote: make(chan struct{}), ping: make(chan struct{}, 64)}
+	ep := &c16Epoch{k: k, active: make(chan struct{}), wrote: make(chan struct{}), ping: make(chan struct{}, 64), pubrec: make(chan struct{}, 8)}
 	var wroteOnce sync.Once
 	if ans {
 		ep.answer = 1
@@ -865,6 +997,11 @@ func (r *c16RC) dial(ctx context.Context) (*mqtt.BaseClient, error) {
 				r.tl.tev(k, "TCallClose")
 			}
 			c.send([]byte{0x20, 2, 0, byte(refuse)})
+		case 0x50:
+			select {
+			case ep.pubrec <- struct{}{}:
+			default:
+			}
 		case 0xC0:
 			if atomic.LoadInt32(&ep.answer) == 1 {
 				c.send([]byte{0xD0, 0})
@@ -879,6 +1016,10 @@ func (r *c16RC) dial(ctx context.Context) (*mqtt.BaseClient, error) {
 	var once sync.Once
 	ep.cli.ConnState = func(st mqtt.ConnState, err error) {
 		r.tl.tev(k, fmt.Sprintf("(TCb %s %s)", c16State(st), c16Err(err)))
+		c16Look(r.tl, k, ep.cli)
+		if k%2 == 1 && (st == mqtt.StateClosed || st == mqtt.StateDisconnected) {
+			ep.cli.Handle(nil)
+		}
 		if st == mqtt.StateClosed {
 			ep.mu.Lock()
 			ep.closedE = err
@@ -904,14 +1045,19 @@ func (ep *c16Epoch) waitDone(what string) error {
 	if err := c16WaitCh(ep.wrote, what+" (CONNECT not written)"); err != nil {
 		return err
 	}
-	return c16WaitCh(ep.cli.Done(), what)
+	var done <-chan struct{}
+	if !c16Guard(func() { done = ep.cli.Done() }) {
+		return fmt.Errorf("stuck: Done() did not return (%s)", what)
+	}
+	return c16WaitCh(done, what)
 }
 
 func c16WaitCh(ch <-chan struct{}, what string) error {
 	select {
 	case <-ch:
 		return nil
-	case <-time.After(c16Wait):
+	case <-time.After(c16Limit()):
+		atomic.AddInt32(&c16Expired, 1)
 		return fmt.Errorf("stuck: %s", what)
 	}
 }
@@ -920,7 +1066,8 @@ func (r *c16RC) nextEpoch(what string) (*c16Epoch, error) {
 	select {
 	case ep := <-r.newEp:
 		return ep, nil
-	case <-time.After(c16Wait):
+	case <-time.After(c16Limit()):
+		atomic.AddInt32(&c16Expired, 1)
 		return nil, fmt.Errorf("stuck: %s", what)
 	}
 }
@@ -951,11 +1098,13 @@ type c16RCResult struct {
 const c16Ping = 5 * time.Millisecond
 
 // c16RunRC runs one scenario of the reconnecting client. kind:
-//  "ka_timeout"           connection 0: PINGREQ never answered -> keep-alive timeout; connection 1 healthy; Disconnect
-//  "stale_ka"             connection 0 healthy, cut by the peer while idle; connection 1 healthy; sampled >= 60 ms later; Disconnect; sampled again
-//  "refused"              connection 0: CONNACK refused (code); connection 1 healthy; Disconnect
-//  "graceful_late"        healthy, Disconnect, sampled >= 60 ms (12 ping intervals) later
-//  "ka_graceful_inflight" PINGREQ in flight (never answered, long timeout) when Disconnect is called
+//
+//	"ka_timeout"           connection 0: PINGREQ never answered -> keep-alive timeout; connection 1 healthy; Disconnect
+//	"stale_ka"             connection 0 healthy, cut by the peer while idle; connection 1 healthy; sampled >= 60 ms later; Disconnect; sampled again
+//	"refused"              connection 0: CONNACK refused (code); connection 1 healthy; Disconnect
+//	"ack_write_fail"       connection 0 healthy; inbound QoS 2, the PUBCOMP write fails (reads still work); connection 1 healthy
+//	"graceful_late"        healthy, Disconnect, sampled >= 60 ms (12 ping intervals) later
+//	"ka_graceful_inflight" PINGREQ in flight (never answered, long timeout) when Disconnect is called
 func c16RunRC(kind string, code int) (res c16RCResult) {
 	tl := &c16Timeline{}
 	r := &c16RC{tl: tl, newEp: make(chan *c16Epoch, 16)}
@@ -982,9 +1131,11 @@ func c16RunRC(kind string, code int) (res c16RCResult) {
 		res.stuck = err.Error()
 		return
 	}
-	ctx, cancel := ctxTimeout(4 * c16Wait)
+	ctx, cancel := ctxTimeout(3 * c16Wait)
 	defer cancel()
 	fail := func(e error) c16RCResult {
+		tl.tev(0, "TStuck")
+		tl.add("", e.Error())
 		res.items, res.human = tl.snapshot()
 		res.stuck = e.Error()
 		go rc.Disconnect(ctx)
@@ -1017,7 +1168,9 @@ func c16RunRC(kind string, code int) (res c16RCResult) {
 		tl.step(0, "LKAClose")
 		tl.step(0, "(LServeFail ELocalClosed)")
 		c16ExitLabels(tl, 0)
-		c16Sample(tl, 0, ep0.cli)
+		if !c16Sample(tl, 0, ep0.cli) {
+			return fail(errors.New("stuck: Err()/Done() did not return"))
+		}
 	case "refused":
 		if err := ep0.waitDone("refused connection 0 is closed by the loop"); err != nil {
 			return fail(err)
@@ -1026,18 +1179,36 @@ func c16RunRC(kind string, code int) (res c16RCResult) {
 		tl.step(0, "LLocalClose")
 		tl.step(0, "(LServeFail ELocalClosed)")
 		c16ExitLabels(tl, 0)
-		c16Sample(tl, 0, ep0.cli)
-	case "stale_ka":
+		if !c16Sample(tl, 0, ep0.cli) {
+			return fail(errors.New("stuck: Err()/Done() did not return"))
+		}
+	case "stale_ka", "ack_write_fail":
 		if err := c16WaitCh(ep0.active, "connection 0 Active"); err != nil {
 			return fail(err)
 		}
 		c16ConnectLabels(tl, 0, 0)
 		tl.step(0, "LKAStart")
 		time.Sleep(3 * c16Ping)
-		c16Sample(tl, 0, ep0.cli)
-		tl.tev(0, "(TPeerEnd EEOF)")
-		ep0.conn.finish()
-		if err := ep0.waitDone("connection 0 ends after the peer closed"); err != nil {
+		if !c16Sample(tl, 0, ep0.cli) {
+			return fail(errors.New("stuck: Err()/Done() did not return"))
+		}
+		cause := "EEOF"
+		if kind == "stale_ka" {
+			tl.tev(0, "(TPeerEnd EEOF)")
+			ep0.conn.finish()
+		} else {
+			// inbound QoS 2 exchange whose PUBCOMP cannot be written: the sending direction of
+			// the transport breaks after PUBREC, receiving still works
+			cause = "EWriteFail"
+			ep0.conn.send(encPublish(inMsg{Topic: []byte("t"), ID: 7, QoS: 2, Payload: []byte{1}}))
+			if err := c16WaitCh(ep0.pubrec, "PUBREC for the inbound QoS 2 PUBLISH"); err != nil {
+				return fail(err)
+			}
+			tl.tev(0, "(TPeerEnd EWriteFail)")
+			atomic.StoreInt32(&ep0.conn.failAcks, 1)
+			ep0.conn.send(encID(0x62, 7))
+		}
+		if err := ep0.waitDone("connection 0 ends after " + cause); err != nil {
 			return fail(err)
 		}
 		// the keep-alive of connection 0 may have failed on the closed transport before the
@@ -1046,7 +1217,7 @@ func c16RunRC(kind string, code int) (res c16RCResult) {
 		ce := ep0.closedE
 		ep0.mu.Unlock()
 		if c16Err(ce) == "(Some ELocalClosed)" {
-			tl.step(0, "(LServeFail EEOF)")
+			tl.step(0, "(LServeFail "+cause+")")
 			tl.step(0, "LExitClose")
 			tl.step(0, "(LKAFail ELocalClosed)")
 			tl.step(0, "LKACheck")
@@ -1055,12 +1226,14 @@ func c16RunRC(kind string, code int) (res c16RCResult) {
 			tl.step(0, "LExitUpdate")
 			tl.step(0, "LExitDone")
 		} else {
-			tl.step(0, "(LServeFail EEOF)")
+			tl.step(0, "(LServeFail "+cause+")")
 			c16ExitLabels(tl, 0)
 		}
-		c16Sample(tl, 0, ep0.cli)
+		if !c16Sample(tl, 0, ep0.cli) {
+			return fail(errors.New("stuck: Err()/Done() did not return"))
+		}
 	}
-	if kind == "ka_timeout" || kind == "refused" || kind == "stale_ka" {
+	if kind == "ka_timeout" || kind == "refused" || kind == "stale_ka" || kind == "ack_write_fail" {
 		ep1, err := r.nextEpoch("second dial")
 		if err != nil {
 			return fail(err)
@@ -1071,10 +1244,12 @@ func c16RunRC(kind string, code int) (res c16RCResult) {
 		tl.step(0, "LCtxCancel")
 		c16ConnectLabels(tl, 1, 0)
 		tl.step(1, "LKAStart")
-		c16Sample(tl, 1, ep1.cli)
+		if !c16Sample(tl, 1, ep1.cli) {
+			return fail(errors.New("stuck: Err()/Done() did not return"))
+		}
 		// give the stale keep-alive goroutine of connection 0 ample time (lower bound only)
 		time.Sleep(12 * c16Ping)
-		if kind == "stale_ka" {
+		if kind == "stale_ka" || kind == "ack_write_fail" {
 			ep0.mu.Lock()
 			ce := ep0.closedE
 			ep0.mu.Unlock()
@@ -1083,7 +1258,9 @@ func c16RunRC(kind string, code int) (res c16RCResult) {
 				tl.step(0, "LKACheck")
 			}
 		}
-		c16Sample(tl, 1, ep1.cli)
+		if !c16Sample(tl, 1, ep1.cli) {
+			return fail(errors.New("stuck: Err()/Done() did not return"))
+		}
 		c16Sample(tl, 0, ep0.cli)
 		last = ep1
 	} else {
@@ -1099,14 +1276,17 @@ func c16RunRC(kind string, code int) (res c16RCResult) {
 		} else {
 			time.Sleep(3 * c16Ping)
 		}
-		c16Sample(tl, 0, ep0.cli)
+		if !c16Sample(tl, 0, ep0.cli) {
+			return fail(errors.New("stuck: Err()/Done() did not return"))
+		}
 	}
 	select {
 	case err := <-connRes:
 		if err != nil {
 			return fail(fmt.Errorf("ReconnectClient.Connect: %v", err))
 		}
-	case <-time.After(c16Wait):
+	case <-time.After(c16Limit()):
+		atomic.AddInt32(&c16Expired, 1)
 		return fail(fmt.Errorf("stuck: ReconnectClient.Connect does not return"))
 	}
 	// graceful Disconnect of the current connection
@@ -1117,8 +1297,12 @@ func c16RunRC(kind string, code int) (res c16RCResult) {
 	tl.step(k, "(LDiscWrite true)")
 	tl.tev(k, "TDiscClose")
 	tl.step(k, "LDiscClose")
-	if err := rc.Disconnect(ctx); err != nil {
-		return fail(fmt.Errorf("ReconnectClient.Disconnect: %v", err))
+	var errDisc error
+	if !c16Guard(func() { errDisc = rc.Disconnect(ctx) }) {
+		return fail(fmt.Errorf("stuck: ReconnectClient.Disconnect does not return"))
+	}
+	if errDisc != nil {
+		return fail(fmt.Errorf("ReconnectClient.Disconnect: %v", errDisc))
 	}
 	tl.tev(k, "(TDiscRet true)")
 	if err := last.waitDone("Done after Disconnect"); err != nil {
@@ -1131,20 +1315,24 @@ func c16RunRC(kind string, code int) (res c16RCResult) {
 		tl.step(k, "LKACheck")
 	}
 	tl.step(k, "LCtxCancel")
-	c16Sample(tl, k, last.cli)
+	if !c16Sample(tl, k, last.cli) {
+		return fail(errors.New("stuck: Err()/Done() did not return"))
+	}
 	if kind == "ka_graceful_inflight" {
 		time.Sleep(4 * c16Ping)
 	} else {
 		time.Sleep(12 * c16Ping)
 	}
 	want := 1
-	if kind == "ka_timeout" || kind == "refused" || kind == "stale_ka" {
+	if kind == "ka_timeout" || kind == "refused" || kind == "stale_ka" || kind == "ack_write_fail" {
 		want = 2
 	}
 	res.disturbed = len(r.epochs) != want
 	for _, ep := range r.epochs {
 		tl.tev(ep.k, "TEnd")
-		c16Sample(tl, ep.k, ep.cli)
+		if !c16Sample(tl, ep.k, ep.cli) {
+			return fail(errors.New("stuck: Err()/Done() did not return"))
+		}
 		c16OnceProbe(tl, ep.k, ep.cli)
 	}
 	res.items, res.human = tl.snapshot()
@@ -1181,9 +1369,6 @@ func runC16(cfg *runCfg) error {
 		if res.stuck != "" {
 			stuckN++
 			desc["stuck"] = res.stuck
-			if len(m.ImplViolations) < 5 {
-				m.ImplViolations = append(m.ImplViolations, map[string]interface{}{"family": fam, "stuck_waiting_for": res.stuck, "scenario": res.macros, "timeline": res.human})
-			}
 		}
 		bc = append(bc, cTuple(cBool(managed), cListInline(res.items)))
 		m.Families[fam] = append(m.Families[fam], desc)
@@ -1207,13 +1392,20 @@ func runC16(cfg *runCfg) error {
 	}
 	fileBC, fileRC := c16LoadCorpus()
 	corpus = append(corpus, fileBC...)
+	skipped := 0
 	for i, p := range corpus {
-		for ek := 0; ek < 5; ek++ {
-			res := c16RunBC(p, ek, 1+(i+ek)%5, i, 0, nil)
+		for ek := 0; ek < c16EndKinds; ek++ {
+			if c16GiveUp() {
+				skipped++
+				continue
+			}
+			res := c16RunBC(p, ek, 1+(i+ek)%5, i, (i+ek)%2, 0, nil)
 			addBC(res, "bc", false)
 		}
 	}
-	// exhaustive: every valid scenario up to depth D (PeerEnd = peer closes, refusal code 5)
+	nCorpus := len(bc)
+	// exhaustive: every valid scenario up to depth D (the kind of PeerEnd, the refusal code and the
+	// handler mode are functions of the scenario, so that all of them occur)
 	depth, nRand, rcReps := 5, 600, 2
 	switch cfg.tier {
 	case "thorough":
@@ -1227,10 +1419,18 @@ func runC16(cfg *runCfg) error {
 	}
 	var rec func(prefix []int)
 	rec = func(prefix []int) {
-		if len(bc) >= budget || stuckN > 6 {
+		if len(bc) >= budget || c16GiveUp() {
 			return
 		}
-		res := c16RunBC(prefix, 0, 5, len(prefix), 0, nil)
+		sum := 0
+		for _, x := range prefix {
+			sum += x + 1
+		}
+		hm := 0
+		if sum%4 == 1 {
+			hm = 1
+		}
+		res := c16RunBC(prefix, sum%c16EndKinds, 1+sum%5, len(prefix), hm, 0, nil)
 		if len(prefix) > 0 {
 			addBC(res, "bc", false)
 		}
@@ -1244,9 +1444,17 @@ func runC16(cfg *runCfg) error {
 	rec(nil)
 	nEnum := len(bc)
 	// random continuation: longer scenarios, all malformed kinds and refusal codes, random drain order
-	for i := 0; i < nRand && stuckN <= 6; i++ {
+	for i := 0; i < nRand; i++ {
+		if c16GiveUp() {
+			skipped += nRand - i
+			break
+		}
 		// a random walk over the steps that are valid when their turn comes
-		res := c16RunBC(nil, rnd.Intn(5), 1+rnd.Intn(5), rnd.Intn(3), 6+rnd.Intn(10), func(v []int) int { return v[rnd.Intn(len(v))] })
+		hm := 0
+		if rnd.Intn(4) == 0 {
+			hm = 1
+		}
+		res := c16RunBC(nil, rnd.Intn(c16EndKinds), 1+rnd.Intn(5), rnd.Intn(3), hm, 6+rnd.Intn(10), func(v []int) int { return v[rnd.Intn(len(v))] })
 		addBC(res, "bc", false)
 	}
 	// family rc
@@ -1254,10 +1462,14 @@ func runC16(cfg *runCfg) error {
 	addRC := func(kind string, code int) {
 		// a scenario disturbed by the machine (stall longer than the ping timeout, wait expired)
 		// is re-run, up to three times, before it is believed
+		if c16GiveUp() {
+			skipped++
+			return
+		}
 		var res c16RCResult
 		for try := 0; try < 3; try++ {
 			res = c16RunRC(kind, code)
-			if res.stuck == "" && !res.disturbed {
+			if (res.stuck == "" && !res.disturbed) || c16GiveUp() {
 				break
 			}
 		}
@@ -1265,9 +1477,6 @@ func runC16(cfg *runCfg) error {
 		if res.stuck != "" {
 			rcStuck++
 			desc["stuck"] = res.stuck
-			if len(m.ImplViolations) < 8 {
-				m.ImplViolations = append(m.ImplViolations, map[string]interface{}{"family": "rc", "scenario": kind, "stuck": res.stuck, "timeline": res.human})
-			}
 		}
 		rcCases = append(rcCases, cTuple("true", cListInline(res.items)))
 		m.Families["rc"] = append(m.Families["rc"], desc)
@@ -1282,15 +1491,16 @@ func runC16(cfg *runCfg) error {
 		if e.GoMaxProcs > 0 {
 			oldP = runtime.GOMAXPROCS(e.GoMaxProcs)
 		}
-		for i := 0; i < e.Repeat && rcStuck < 3; i++ {
+		for i := 0; i < e.Repeat; i++ {
 			addRC(e.Kind, e.Code)
 		}
 		if e.GoMaxProcs > 0 {
 			runtime.GOMAXPROCS(oldP)
 		}
 	}
-	for rep := 0; rep < rcReps && rcStuck < 3; rep++ {
+	for rep := 0; rep < rcReps; rep++ {
 		addRC("ka_timeout", 0)
+		addRC("ack_write_fail", 0)
 		addRC("stale_ka", 0)
 		addRC("graceful_late", 0)
 		for code := 1; code <= 5; code++ {
@@ -1301,11 +1511,11 @@ func runC16(cfg *runCfg) error {
 	}
 	// PINGREQ in flight at Disconnect: the losing order of the race is near-certain with one P
 	old := runtime.GOMAXPROCS(1)
-	for i := 0; i < 6*rcReps && rcStuck < 3; i++ {
+	for i := 0; i < 6*rcReps; i++ {
 		addRC("ka_graceful_inflight", 0)
 	}
 	runtime.GOMAXPROCS(old)
-	for i := 0; i < 2*rcReps && rcStuck < 3; i++ {
+	for i := 0; i < 2*rcReps; i++ {
 		addRC("ka_graceful_inflight", 0)
 	}
 
@@ -1318,20 +1528,21 @@ func runC16(cfg *runCfg) error {
 	m.Evaluations = len(bc) + len(rcCases)
 	m.DistinctNontrivial = nontrivial
 	m.Rule = fmt.Sprintf("family bc: a real BaseClient over a gated in-memory transport; every valid scenario of up to %d macro steps over {start Connect, let the CONNECT write succeed/fail, peer sends accepting/refusing CONNACK, peer closes, Close(), release the reader's Transport.Close / the Closed, Active, Disconnected callbacks, start Disconnect, let the DISCONNECT write succeed/fail, let Disconnect close, cancel Connect's context}, each completed by releasing everything; plus %d random scenarios of 5-14 steps with all malformed-packet kinds and refusal codes 1-5 and three completion orders; Err() and Done() polled after every step (also inside callbacks). family rc: the real ReconnectClient with an in-memory dialer (ping 5 ms): keep-alive timeout, idle cut then healthy connection sampled >= 60 ms later, refused CONNACK codes 1-5, graceful Disconnect sampled >= 60 ms later, Disconnect with a PINGREQ in flight (GOMAXPROCS 1 and default). non-trivial = distinct bc timeline with >= 4 macro steps, or any rc scenario", depth, nRand)
-	m.Distribution["bc_corpus"] = len(corpus) * 5
-	m.Distribution["bc_enumerated"] = nEnum - len(corpus)*5
+	m.Distribution["bc_corpus"] = nCorpus
+	m.Distribution["bc_enumerated"] = nEnum - nCorpus
 	m.Distribution["bc_random"] = len(bc) - nEnum
 	m.Distribution["rc"] = len(rcCases)
 	m.Distribution["distinct_bc_timelines"] = len(distinct)
 	m.Distribution["macro_steps"] = macroCount
-	m.Distribution["stuck"] = stuckN + rcStuck
+	m.Distribution["scenarios_in_which_a_wait_expired"] = stuckN + rcStuck
+	m.Distribution["waits_expired"] = atomic.LoadInt32(&c16Expired)
+	m.Distribution["scenarios_skipped_after_expired_waits"] = skipped
 	m.Exhaustive = true
 	if err := cf.write(cfg.outDir); err != nil {
 		return err
 	}
 	return m.write(cfg.outDir)
 }
-
 
 // ---------------------------------------------------------------- committed corpus (corpus/C16/*.json)
 
@@ -1357,7 +1568,7 @@ func c16LoadCorpus() (bc [][]int, rc []c16CorpusRC) {
 	}
 	files, _ := filepath.Glob(filepath.Join(root, "corpus", "C16", "*.json"))
 	sort.Strings(files)
-	kinds := map[string]bool{"ka_timeout": true, "stale_ka": true, "refused": true, "graceful_late": true, "ka_graceful_inflight": true}
+	kinds := map[string]bool{"ack_write_fail": true, "ka_timeout": true, "stale_ka": true, "refused": true, "graceful_late": true, "ka_graceful_inflight": true}
 	for _, f := range files {
 		b, err := os.ReadFile(f)
 		if err != nil {
